@@ -108,6 +108,40 @@ def d2(chk, prog):
                 ok = ok and same(got["depth"], wd)
         tb.cell(ok, dict(weights=wkind, rows_out=len(out), got={k: repr(v) for k, v in got.items()},
                          want="start=s0 end=e2 gene=G probes=len log2=wavg(log2;weight)|mean weight=sum depth=wavg(depth;weight)"))
+    # skip_low: only the mean ignores null-coverage bins; coordinates, bin count, weight and depth are the gene's own
+    W.reset()
+    w = [Term.sym(f"w{i}", 0, INF, positive=True) for i in range(3)]
+    for x in w:
+        x.lo = 1e-9
+    rows, s, e, lg, dp = grp_rows(w)
+    rows[0]["log2"] = Term.sym("v_low", -INF, -16)
+    for i in (1, 2):
+        rows[i]["log2"] = Term.sym(f"u{i}", -10, 10)         # (fresh names: a symbol keeps the range it was first declared with)
+    dp = [Term.sym(f"dd{i}", 1, INF) for i in range(3)]
+    for i in range(3):
+        rows[i]["depth"] = dp[i]
+    g = make_ga("CopyNumArray", rows, {"sample_id": "S"}, index="any", exact=True)
+    model = Model()
+    model.method_prims["by_gene"] = lambda it, obj, *a, **k: [("G", g)]
+    it = Interp(prog, model)
+    old = CTX.atoms
+    CTX.atoms = lambda d, op: True
+    try:
+        out = tb.guard(lambda: list(it.run(fi.qn, [g, True])), "skip_low with a null-coverage first bin")
+    finally:
+        CTX.atoms = old
+    if out is not None:
+        ok = len(out) == 1
+        got = {}
+        if ok:
+            r = out[0]
+            got = {k: r._d.get(k) for k in ("start", "end", "log2", "probes", "weight", "depth")}
+            wl = t_div(t_add(t_mul(rows[1]["log2"], w[1]), t_mul(rows[2]["log2"], w[2])), t_add(w[1], w[2]))
+            sumw = t_add(t_add(w[0], w[1]), w[2])
+            wd = t_div(t_add(t_add(t_mul(dp[0], w[0]), t_mul(dp[1], w[1])), t_mul(dp[2], w[2])), sumw)
+            ok = same(got["start"], s[0]) and same(got["end"], e[2]) and got["probes"] == 3 and same(got["weight"], sumw) and same(got["depth"], wd) and same(got["log2"], wl)
+        tb.cell(ok, dict(case="skip_low=True, first bin has null coverage", got={k: repr(v) for k, v in got.items()},
+                         want="start=s0 end=e2 probes=3 weight=sum(all) depth=wavg(all) log2=wavg(bins with coverage)"))
     tb.done("per-gene summary is not (first start, last end, bin count, summed weight, weight-averaged depth and log2)")
 
     # threshold filter of gene_metrics_by_gene: |log2| >= threshold and a non-empty name
@@ -240,6 +274,8 @@ MUTANTS = [
     dict(name="breaks: chromosome test dropped", file=_R, old="        if next_row.chromosome != curr_chrom:\n            continue\n", new=""),
     dict(name="genemetrics min_probes strict", file=_R, old="        table = table[n_probes >= min_probes]", new="        table = table[n_probes > min_probes]"),
     dict(name="squash end from first", file=_C, old="            end = rows.end.iat[-1]\n            cvg", new="            end = rows.end.iat[0]\n            cvg"),
+    dict(name="seeded C16a: label - first label used as a position", edits=[(_C, "                    start_idx = positions[gene_idx[0]]\n                    end_idx = positions[gene_idx[-1]] + 1\n", "                    start_idx = gene_idx[0] - subgary.data.index[0]\n                    end_idx = gene_idx[-1] - subgary.data.index[0] + 1\n")]),
+    dict(name="seeded C16b: gene summarised from the coverage-filtered bins", file=_R, old="        if not rows or gene in ignore:\n            continue\n        segmean = segment_mean(rows, skip_low)", new="        if gene in ignore:\n            continue\n        if skip_low:\n            rows = rows.drop_low_coverage()\n        if not rows:\n            continue\n        segmean = segment_mean(rows)"),
     dict(name="twin: breaks comparison rewritten", file=_R, old="            if gstarts[0] < curr_end < gend:", new="            if curr_end > gstarts[0] and gend > curr_end:", expect="silent"),
     dict(name="twin: by_gene locals renamed", file=_C, old="            prev_idx = 0\n            for gene, gene_idx in subgary._get_gene_map().items():", new="            prev_idx = 0\n            _n_bins = len(subgary)\n            for gene, gene_idx in subgary._get_gene_map().items():", expect="silent"),
 ]
